@@ -17,8 +17,8 @@ pub const ENTRY: Entry = Entry {
     level: "model_checking",
     rule: "real Builder::init on external models with 20 framebuffer sizes (all of {1,240,65535}^2, the built-in sizes, \
            32767x32768, 32768x32767, 65534x65535, 65535x32768, ...) x (w,h,ox,oy) over a per-dimension boundary lattice \
-           {0,1,2,F-1,F,F+1,65535-F,65536-F,65537-F,32767,32768,65534,65535} (~28k-65k tuples per size) x {with, without reset pin}; \
-           thorough adds all 2^32 (w,ox) pairs and all 2^32 (h,oy) pairs for three sizes with the other dimension valid / \
+           {0,1,2,F-1,F,F+1,65535-F,65536-F,65537-F,32767,32768,65534,65535} (~28k-65k tuples per size) x {with, without reset pin} x {default options, a rotated/mirrored option set, a second option set with the builder \
+           options given before `.reset_pin()` and/or the interface lent as `&mut`}; thorough adds all 2^32 (w,ox) pairs and all 2^32 (h,oy) pairs for three sizes with the other dimension valid / \
            offset-overflowing. Oracle: u64 predicate decides Ok / InvalidDisplaySize / InvalidDisplayOffset; on rejection the reset pin, \
            the delay source and the bus have seen zero operations. Checked and wrapping arithmetic builds. Non-trivial = rejected \
            configurations and accepted ones with a non-zero offset.",
@@ -42,10 +42,15 @@ fn dim_lattice(f: u16) -> Vec<u16> {
 
 /// one init; returns a violation (sig, msg) if the verdict or the side effects are wrong
 pub fn check_init(fw: u16, fh: u16, w: u16, h: u16, ox: u16, oy: u16, rst: bool) -> (InitVerdict, Option<(String, String)>) {
+    check_init_o(fw, fh, w, h, ox, oy, rst, 0)
+}
+
+/// `opt`: bits 0..2 orientation, bit 3 builder options set before `.reset_pin()`, bit 4 borrowed interface
+pub fn check_init_o(fw: u16, fh: u16, w: u16, h: u16, ox: u16, oy: u16, rst: bool, opt: u8) -> (InitVerdict, Option<(String, String)>) {
     let want = init_spec(fw, fh, w, h, ox, oy);
     let bd = Board::new(Board::default_levels());
     bd.borrow_mut().count_only = true;
-    let cfg = Cfg { model: ModelId::Tiny { fw, fh, c666: false }, tr: Transport::RecSerial, win: Some((w, h, ox, oy)), orient: 0, bgr: false, invert: false, refresh: 0, rst };
+    let cfg = Cfg { model: ModelId::Tiny { fw, fh, c666: false }, tr: Transport::RecSerial, win: Some((w, h, ox, oy)), orient: opt & 7, bgr: opt & 1 != 0, invert: false, refresh: (opt >> 1) & 3, rst, flags: (if opt & 8 != 0 { F_OPTS_FIRST } else { 0 }) | (if opt & 16 != 0 { F_BORROWED } else { 0 }) };
     let mut res = None;
     let out = guarded(|| {
         res = Some(init_only(&cfg, &bd).res);
@@ -56,7 +61,7 @@ pub fn check_init(fw: u16, fh: u16, w: u16, h: u16, ox: u16, oy: u16, rst: bool)
         InitVerdict::InvalidSize => "bad-size",
         InitVerdict::InvalidOffset => "bad-offset",
     };
-    let mk = |k: &str, m: String| (want, Some((format!("init/{class}/{k}"), format!("framebuffer {fw}x{fh}, size {w}x{h}, offset ({ox},{oy}), reset pin {rst}: {m}"))));
+    let mk = |k: &str, m: String| (want, Some((format!("init/{class}/{k}"), format!("framebuffer {fw}x{fh}, size {w}x{h}, offset ({ox},{oy}), reset pin {rst}, options code {opt}: {m}"))));
     if let Outcome::Panic(m) = out {
         return mk("panic", m);
     }
@@ -99,7 +104,12 @@ fn run(ctx: &Ctx) -> Part {
             for &ox in &lx {
                 for &h in &ly {
                     for &oy in &ly {
-                        let (v, f) = check_init(fw, fh, w, h, ox, oy, rst);
+                      // every tuple in the default orientation; plus two rotated / mirrored option sets chosen
+                      // by position so that all 8 orientations, both builder call orders and the borrowed
+                      // interface occur for every framebuffer size
+                      let k = (w as u32 + ox as u32 * 3 + h as u32 * 5 + oy as u32 * 7) as u8;
+                      for opt in [0u8, 1 + (k % 7), (8 | 16) ^ (k & 24) | ((k / 3) % 8)] {
+                        let (v, f) = check_init_o(fw, fh, w, h, ox, oy, rst, opt);
                         acc.evaluations += 1;
                         match v {
                             InitVerdict::Ok => {
@@ -118,8 +128,9 @@ fn run(ctx: &Ctx) -> Part {
                             }
                         }
                         if let Some((sig, msg)) = f {
-                            acc.violation(Violation { prop: ctx.prop.clone(), sig, msg, case: json!({"kind": "c09", "variant": ctx.variant, "fb": [fw, fh], "win": [w, h, ox, oy], "rst": rst}) });
+                            acc.violation(Violation { prop: ctx.prop.clone(), sig, msg, case: json!({"kind": "c09", "variant": ctx.variant, "fb": [fw, fh], "win": [w, h, ox, oy], "rst": rst, "opt": opt}) });
                         }
+                      }
                     }
                 }
             }
@@ -175,7 +186,7 @@ fn run(ctx: &Ctx) -> Part {
 
 pub fn replay(case: &serde_json::Value) -> i32 {
     let g = |k: &str, i: usize| case[k][i].as_u64().unwrap() as u16;
-    let (v, f) = check_init(g("fb", 0), g("fb", 1), g("win", 0), g("win", 1), g("win", 2), g("win", 3), case["rst"].as_bool().unwrap());
+    let (v, f) = check_init_o(g("fb", 0), g("fb", 1), g("win", 0), g("win", 1), g("win", 2), g("win", 3), case["rst"].as_bool().unwrap(), case["opt"].as_u64().unwrap_or(0) as u8);
     println!("specification verdict: {v:?}");
     match f {
         Some((s, m)) => {
